@@ -122,4 +122,41 @@ def build_locks(w, PROP):
                  'a_new_lock_only_when_none_was_given': 'implies(lock is None, fresh(self._lock) and g.new_locks == 1 and '
                                                         'self._lock.depth == 0)',
                  'acquire_and_release_are_that_locks': 'self.acquire == self._lock.acquire and self.release == self._lock.release'})
-    return out + [enter, leave, getitem, setitem, init]
+    # synchronized(obj, lock, ctx): picks the wrapper class by the kind of ctypes object and hands the lock on.  (It is also
+    # what un-pickling a wrapper calls -- SynchronizedBase.__reduce__ -- so a lock dropped here is a lock dropped in the
+    # receiving process.)  The branch for structures builds a class at run time and is excluded by the precondition.
+    w.contracts[init.qualname] = init
+    w.classes['Shared'].fields.update({'kind': IntS, '_type_': ValS})
+    for cname, pyname in (('SyncV', 'Synchronized'), ('SyncA', 'SynchronizedArray'), ('SyncS', 'SynchronizedString')):
+        w.cls(cname, module='sharedctypes', pyname=pyname, base='Sync', fields={})
+
+    def ext_isinstance(ex, args, kw):
+        obj, cls = args
+        name = getattr(cls, 'name', '') or ''
+        kind = ex.path.read_field(obj, 'kind').e
+        if name.endswith('SynchronizedBase'):
+            return mk_bool(False)
+        if name.endswith('_SimpleCData'):
+            return SV(BoolS, kind == 0)
+        if name.endswith('Array'):
+            return SV(BoolS, z3.Or(kind == 1, kind == 2))
+        raise Unsupported('isinstance(%r, %r)' % (obj, cls))
+    C_CHAR = "ext('ctypes.c_char')"
+    w.spec_funcs['ext'] = lambda ex, n: SV(ValS, z3.Const('ext:' + n.s, Val))
+    sync = Contract(
+        'sharedctypes.synchronized', prop=PROP, variants=['locks'],
+        params={'obj': ref('Shared'), 'lock': opt(ref('SLock')), 'ctx': opt(ValS)},
+        externals={'builtins.isinstance': ext_isinstance, 'sharedctypes.get_context': ext_ctx, 'context.get_context': ext_ctx,
+                   'billiard..get_context': ext_ctx, '<opaque>.RLock': ext_rlock},
+        requires={'objects': 'allocated(obj) and (lock is None or allocated(val(lock)))', 'fresh': 'g.new_locks == 0',
+                  'a_simple_value_or_an_array': '0 <= obj.kind and obj.kind <= 2 and '
+                                                '(obj.kind == 2) == (obj._type_ == %s)' % C_CHAR},
+        modifies=['Sync.*', 'g.new_locks', 'SLock.*'],
+        returns=ref('Sync'),
+        ensures={'wraps_the_object_it_was_given': 'fresh(result) and result._obj == obj',
+                 'hands_the_lock_it_was_given_to_the_wrapper': 'implies(lock is not None, result._lock == val(lock) and '
+                                                               'g.new_locks == 0)',
+                 'a_new_lock_only_when_none_was_given': 'implies(lock is None, fresh(result._lock) and g.new_locks == 1)',
+                 'acquire_and_release_are_that_locks': 'result.acquire == result._lock.acquire and '
+                                                       'result.release == result._lock.release'})
+    return out + [enter, leave, getitem, setitem, init, sync]
